@@ -39,10 +39,13 @@ macro_rules! impl_timestamp {
       /// nanoseconds since the Unix Epoch.
       /// Will panic if the time specified is outside the valid range.
       pub(crate) fn from_secs_and_nanos(seconds: i64, subsec_nanos: i64) -> QCompressResult<Self> {
-        seconds.checked_mul($parts_per_sec)
-          .and_then(|seconds_parts| seconds_parts.checked_add(subsec_nanos / Self::NS_PER_PART))
+        // seconds * parts_per_sec alone may be out of range just before the
+        // minimum timestamp (seconds are rounded down), so use wider arithmetic
+        let parts = seconds as i128 * $parts_per_sec as i128 +
+          (subsec_nanos / Self::NS_PER_PART) as i128;
+        i64::try_from(parts)
           .map($t::new)
-          .ok_or_else(|| QCompressError::invalid_argument("timestamp out of range"))
+          .map_err(|_| QCompressError::invalid_argument("timestamp out of range"))
       }
 
       /// Returns the `(seconds, subsec_nanos)` since the Unix Epoch.
